@@ -44,10 +44,12 @@ KNOWN_ATTR = 'C04-stepper-attr-snapshot'
 TICK = 2.0 ** -8
 
 PROG_CONST = {
-    'quick': dict(MaxS=3, AccShapes='{"none", "pre", "preF", "post"}',
+    'quick': dict(MaxS=3,
+                  AccShapes='{"none", "pre", "preF", "post", "postF"}',
                   DomShapes='{"none", "mid"}',
                   AccShapes3='{"pre", "preF"}', DomShapes3='{"none", "mid"}'),
-    'thorough': dict(MaxS=3, AccShapes='{"none", "pre", "preF", "post"}',
+    'thorough': dict(MaxS=3,
+                     AccShapes='{"none", "pre", "preF", "post", "postF"}',
                      DomShapes='{"none", "mid", "end"}',
                      AccShapes3='{"none", "pre", "preF", "post"}',
                      DomShapes3='{"none", "mid"}'),
@@ -62,6 +64,9 @@ UNIVERSES = {
         # the same stepper class with different parameters on arrays a, c
         dict(MaxS=2, PatSets='PatsD', NReals='{1}', NGhosts='{0, 1}',
              StepSets='{2}', Periodics='{FALSE}'),
+        # py hooks that change the population of their array
+        dict(MaxS=2, PatSets='PatsE', NReals='{0, 2}', NGhosts='{1}',
+             StepSets='{2}', Periodics='{FALSE}'),
     ],
     'thorough': [
         dict(MaxS=2, PatSets='PatsA', NReals='{0, 1, 2}', NGhosts='{0, 1}',
@@ -72,19 +77,24 @@ UNIVERSES = {
              StepSets='{2}', Periodics='{TRUE}'),
         dict(MaxS=2, PatSets='PatsD', NReals='{0, 2}', NGhosts='{1}',
              StepSets='{1, 2}', Periodics='{FALSE, TRUE}'),
+        dict(MaxS=2, PatSets='PatsE', NReals='{0, 1, 2}', NGhosts='{0, 1}',
+             StepSets='{1, 2}', Periodics='{FALSE}'),
     ],
 }
-MUTATIONS = ('ghosts', 'stale_t', 'norefresh')
+MUTATIONS = ('ghosts', 'stale_t', 'norefresh', 'countfirst')
 INVARIANTS = ('LogOK', 'GhostsUntouched', 'GhostsAreCopies', 'VisitsOK',
-              'TimeOK')
+              'TimeOK', 'RealsFirst')
 PATS_A = [['L'], ['P'], ['O'], ['W'], ['P', 'N'], ['L', 'P'], ['O', 'L'],
-          ['L', 'P', 'L'], ['W', 'O', 'W']]
+          ['L', 'P', 'L'], ['W', 'O', 'W'],
+          ['A'], ['G'], ['R'], ['G', 'A'], ['L', 'R']]
 # generated probe modules: (S, ne, stepper patterns)
 MODULES = {
     'quick': [(1, 1, ['W']), (2, 1, ['L', 'P']), (2, 2, ['O', 'L']),
               (3, 2, ['P', 'N']), (2, 1, ['L']), (3, 1, ['O']),
               # arrays a and c: the SAME stepper class, different parameters
-              (2, 1, ['L', 'P', 'L'])],
+              (2, 1, ['L', 'P', 'L']),
+              # py hooks that add / retag / remove particles
+              (2, 1, ['G', 'A']), (1, 1, ['R'])],
     'thorough': [(S, ne, p) for p in PATS_A
                  for (S, ne) in ((1, 1), (2, 1), (2, 2), (3, 1), (3, 2))],
 }
@@ -192,8 +202,9 @@ def design(chk):
                  StepSets='{1}', Periodics='{FALSE}')
     for m in MUTATIONS:
         cfg = os.path.join(sc, 'sens-%s.cfg' % m)
-        write_cfg(cfg, small, ['LogOK'], mut=(m,))
-        jobs.append(('sens', m, small, cfg))
+        c = dict(small, PatSets='PatsE') if m == 'countfirst' else small
+        write_cfg(cfg, c, ['LogOK'], mut=(m,))
+        jobs.append(('sens', m, c, cfg))
     nd = len(UNIVERSES[chk.tier])
     with ThreadPoolExecutor(max_workers=len(jobs)) as ex:
         # the first universe is by far the largest
@@ -305,11 +316,20 @@ def gen_modules(chk, progs, pats, rng):
                 for ai, nm in enumerate(pn)]
         neg = any(d['mv'] < 0 for a in arrs for d in a['meth'])
         # shapes that must be there whatever the seed, then the sample
+        pop = has_pop(arrs)
+        if pop:
+            # after a hook changed the population a stale neighbour
+            # structure may index particles that no longer exist: only
+            # programs that refresh before every evaluation are RUN
+            pool = [p for p in pool
+                    if all(o['nnps'] for o in p['ops'] if o['op'] == 'accel')]
         must = [p for p in pool
                 if refresh_twice_after_move(p['ops'], arrs)][:4]
+        must += [p for p in pool if p not in must
+                 and stale_eval(p['ops'], arrs)][:4]
         rest = [p for p in pool if p not in must]
-        variants = [p['ops'] for p in
-                    (must + rest)[:NVARIANTS[chk.tier]]]
+        variants = [with_forms(p['ops'], vi) for vi, p in
+                    enumerate((must + rest)[:NVARIANTS[chk.tier]])]
         M = dict(mid='g%d' % mi, kind='gen', S=S, ne=ne, arrs=arrs,
                  variants=variants, pats=pn)
         cases = []
@@ -322,7 +342,7 @@ def gen_modules(chk, progs, pats, rng):
                     id='%s-v%d-c%d' % (M['mid'], vi, ci), variant=vi,
                     nreal=nr, nghost=ng, steps=steps_of(ns),
                     periodic=False, q=TICK, e=0))
-            if not neg and not stale_after_domain(ops) and \
+            if not neg and not pop and not stale_after_domain(ops) and \
                     any(o['op'] == 'domain' for o in ops):
                 for ci, (nr, ng) in enumerate(cfgs[:2]):
                     if sum(nr) == 0:
@@ -337,12 +357,54 @@ def gen_modules(chk, progs, pats, rng):
     return jobs
 
 
-def OP(op, m=0, i=0, nnps=False, num=0, den=1, n=0):
-    return dict(op=op, m=m, i=i, nnps=nnps, num=num, den=den, n=n)
+def OP(op, m=0, i=0, nnps=False, num=0, den=1, n=0, form=''):
+    return dict(op=op, m=m, i=i, nnps=nnps, num=num, den=den, n=n, form=form)
 
 
-def MR(loop, py, mv=0, pyw=False):
-    return dict(loop=loop, py=py, mv=mv, pyw=pyw)
+def MR(loop, py, mv=0, pyw=False, pop='none'):
+    return dict(loop=loop, py=py, mv=mv, pyw=pyw, pop=pop)
+
+
+FORMS = ('kw', 'pos', 'kwonly', 'kwboth')
+
+
+def with_forms(ops, k0=0):
+    """how update_nnps=False is written in the source: keyword, positional
+    (i, False), keyword only, both keywords"""
+    out, k = [], k0
+    for o in ops:
+        o = dict(o)
+        o['form'] = ''
+        if o['op'] == 'accel' and not o['nnps']:
+            f = FORMS[k % len(FORMS)]
+            k += 1
+            o['form'] = 'kw' if (f == 'kwonly' and o['i'] != 0) else f
+        out.append(o)
+    return out
+
+
+def has_pop(arrs):
+    return any(d['py'] and d.get('pop', 'none') != 'none'
+               for a in arrs for d in a['meth'])
+
+
+def stale_eval(ops, arrs):
+    """an evaluation with update_nnps=False while particles have moved since
+    the last refresh (cyclically)"""
+    def moves(o):
+        return o['op'] == 'stage' and any(
+            a['meth'][o['m']]['loop'] and a['meth'][o['m']]['mv']
+            for a in arrs)
+    moved = False
+    for o in list(ops) * 2:
+        if moves(o):
+            moved = True
+        elif o['op'] == 'accel':
+            if o['nnps']:
+                moved = False
+            elif moved:
+                return True
+    return False
 
 
 def hand_modules(chk, pats):
@@ -368,6 +430,13 @@ def hand_modules(chk, pats):
     four3 = [OP('accel', i=0, nnps=True), OP('stage', 1),
              OP('accel', i=0, nnps=True), OP('stage', 2), OP('domain'),
              OP('post', num=1, den=1, n=1)]
+    # update_nnps=False in every way it can be written, after a move
+    four4 = [OP('accel', i=0, nnps=True), OP('stage', 1),
+             OP('accel', i=0, nnps=False, form='kw'), OP('stage', 2),
+             OP('accel', i=0, nnps=False, form='pos'), OP('stage', 3),
+             OP('accel', i=0, nnps=False, form='kwonly'), OP('stage', 4),
+             OP('accel', i=0, nnps=False, form='kwboth'), OP('domain'),
+             OP('post', num=1, den=1, n=4)]
     a5 = [MR(True, False)] + [MR(True, s % 2 == 1, 1 if s == 2 else 0)
                               for s in range(1, 6)]
     b5 = [MR(False, False), MR(True, False), MR(False, True), MR(True, True),
@@ -379,7 +448,7 @@ def hand_modules(chk, pats):
     jobs = []
     for mid, ne, arrs, variants in (
             ('h5', 2, [a5, b5, a5], [five]),
-            ('h4', 1, [a4, b4, a4], [four, four2, four3])):
+            ('h4', 1, [a4, b4, a4], [four, four2, four3, four4])):
         M = dict(mid=mid, kind='gen', S=len(arrs[0]) - 1, ne=ne,
                  arrs=[dict(name='abc'[ai], k0=ai + 1, meth=m)
                        for ai, m in enumerate(arrs)],
@@ -880,9 +949,12 @@ def selftest(chk, jobs):
         if not r['v']['failed']:
             raise MachineryError('selftest: corrupted record %r accepted'
                                  % c['id'])
+    popj = [j for j in jobs if j['module']['kind'] == 'gen'
+            and j['module']['pats'] == ['G', 'A']][:1]
     muts = [('swap', gen), ('ghosts', gen), ('stale_t', gen + ship),
             ('norefresh', gen + ship), ('swapsrc', ship),
-            ('sharestepper', gen + ship), ('lazyrefresh', gen)]
+            ('sharestepper', gen + ship), ('lazyrefresh', gen),
+            ('countfirst', popj), ('alwaysrefresh', gen)]
     with ThreadPoolExecutor(max_workers=len(muts)) as ex:
         res = list(ex.map(lambda m: (m[0], [t for p in drive(
             chk, m[1], 'sm-' + m[0], mutate=m[0], nproc=2) for t in p]),
